@@ -1,6 +1,7 @@
 """C01 -- serialize/parse round trip is lossless for every object and option set."""
 import datetime as dt
 import io
+import copy
 import json
 
 from hypothesis import strategies as st
@@ -220,8 +221,43 @@ def expected_order(obj_json, ver, custom_names):
     return spec, rest
 
 
+UNREGISTERED_YET = [
+    {"type": "x-verif-c01obj", "spec_version": "2.1", "id": "x-verif-c01obj--3f2504e0-4f89-41d3-9a0c-0305e82c3301", "created": "2020-01-01T00:00:00.000Z",
+     "modified": "2020-01-02T00:00:00.000Z", "prop_str": "early"},
+    {"type": "x-verif-c01extname", "spec_version": "2.1", "id": "x-verif-c01extname--3f2504e0-4f89-41d3-9a0c-0305e82c3301", "created": "2020-01-01T00:00:00.000Z",
+     "modified": "2020-01-02T00:00:00.000Z", "prop_str": "early"},
+    {"type": "x-verif-c01obj20", "id": "x-verif-c01obj20--3f2504e0-4f89-41d3-9a0c-0305e82c3301", "created": "2020-01-01T00:00:00.000Z",
+     "modified": "2020-01-02T00:00:00.000Z", "prop_str": "early"},
+    {"type": "x-verif-c01sco", "spec_version": "2.1", "id": "x-verif-c01sco--3f2504e0-4f89-41d3-9a0c-0305e82c3301", "prop_str": "early"},
+    {"type": "marking-definition", "spec_version": "2.1", "id": "marking-definition--3f2504e0-4f89-41d3-9a0c-0305e82c3301", "created": "2020-01-01T00:00:00.000Z",
+     "definition_type": "x-verif-c01mark", "definition": {"level": 1}},
+    {"type": "file", "spec_version": "2.1", "id": "file--3f2504e0-4f89-41d3-9a0c-0305e82c3301", "name": "early", "extensions": {"x-verif-c01-ext": {"ext_a": "a"}}},
+    {"type": "identity", "spec_version": "2.1", "id": "identity--3f2504e0-4f89-41d3-9a0c-0305e82c3301", "created": "2020-01-01T00:00:00.000Z", "modified": "2020-01-02T00:00:00.000Z",
+     "name": "early", "toplevel_a": "a", "extensions": {TOPLEVEL_EXT_ID: {"extension_type": "toplevel-property-extension"}}},
+]
+
+
+def parse_before_registration():
+    """History step for the fresh-process order probe: content of the harness's custom types reaches the parser (and the bundle
+    and observed-data paths) BEFORE those types are registered -- as it does in any program that receives data first and
+    registers its extensions later.  What the parser answers now is not judged; the objects built after registration are."""
+    import stix2
+    if _registered[0]:
+        return
+    for doc in UNREGISTERED_YET:
+        for allow in (True, False):
+            core.guarded(stix2.parse, copy.deepcopy(doc), allow_custom=allow)
+            core.guarded(stix2.parse, json.dumps(doc), allow_custom=allow)
+            core.guarded(stix2.parse, {"type": "bundle", "id": "bundle--3f2504e0-4f89-41d3-9a0c-0305e82c3301", "objects": [copy.deepcopy(doc)]}, allow_custom=allow)
+        if doc["type"] == "x-verif-c01sco":
+            core.guarded(stix2.parse_observable, copy.deepcopy(doc), allow_custom=True, version="2.1")
+
+
 def check_case(case):
     import stix2
+    if case.get("special") == "parse-before-registration":
+        parse_before_registration()
+        return []
     fails = []
     ver = case["ver"]
     obj, exc = build(case)
@@ -477,7 +513,8 @@ def run(ctx):
                 "constructor with datetime values and clock-supplied defaults), optionally with custom properties or an unregistered "
                 "toplevel-property-extension, bundles incl. empty and mixed-version; each checked under the 4 corner option sets + 3-6 "
                 "drawn from the full 128-combination product of pretty x include_optional_defaults x sort_keys x indent x ensure_ascii x "
-                "separators. Non-trivial = nested structure with a non-plain value class (non-ASCII/control string, >3-digit or "
+                "separators; up to 3 cases per (version, type) re-run in fresh processes in four orders after content of the not-yet-registered "
+                "harness types has been parsed. Non-trivial = nested structure with a non-plain value class (non-ASCII/control string, >3-digit or "
                 "trailing-zero fraction, integer > 2^53, false default, custom content, clock default); distinct = distinct case.")
     ctx.assumptions = ["specification property order and default values come from the frozen model (specmodel/)",
                        "equality is the library's Mapping equality plus byte identity of the re-serialization"]
@@ -492,9 +529,13 @@ def run(ctx):
         for o in case["optsets"]:
             seen_opts.add(json.dumps(o, sort_keys=True))
         ctx.note(case, ("nested" in cl) and bool(set(cl) & NT), cl)
+        ctx.keep(case, (case["ver"], case["doc"].get("type"), case["shape"].startswith("registered-custom")), per_group=3)
         ctx.handle(case, fails)
 
     core.run_given(ctx, case_strategy(), body, ctx.n(1500, 6000), label="c01-main")
+    # the round trip must not depend on what the process did before: the kept cases again in fresh processes in four orders, each
+    # preceded by parses of the harness's custom types at a moment when they are not registered yet
+    core.order_probe(ctx, first=[{"special": "parse-before-registration", "ver": None}])
     ctx.notes["option_sets_covered"] = len(seen_opts)
     ctx.notes["option_sets_total"] = len(OPTSETS)
 
